@@ -142,13 +142,17 @@ class C13b(Obligation):
 from jedi.inference.compiled import getattr_static as jgs  # noqa: E402
 
 
-def make_descriptor_class(has_set, has_delete, log):
+class Meta(type):
+    """a custom metaclass (as abc.ABCMeta is)"""
+
+
+def make_descriptor_class(has_set, has_delete, log, custom_metaclass=False):
     ns = {'__get__': lambda self, obj, owner: log.append('__get__ executed') or 1}
     if has_set:
         ns['__set__'] = lambda self, obj, value: None
     if has_delete:
         ns['__delete__'] = lambda self, obj: None
-    return type('Desc', (object,), ns)
+    return (Meta if custom_metaclass else type)('Desc', (object,), ns)
 
 
 class C13c(Obligation):
@@ -162,9 +166,10 @@ class C13c(Obligation):
         has_set = ctx.flag('descriptor_has___set__')
         has_delete = ctx.flag('descriptor_has___delete__')
         shadowed = ctx.flag('instance_dict_has_same_name')
+        meta = ctx.flag('descriptor_class_has_a_custom_metaclass')
         ctx.int('unused')
         log = []
-        D = make_descriptor_class(has_set, has_delete, log)
+        D = make_descriptor_class(has_set, has_delete, log, meta)
         d = D()
         Owner = type('Owner', (object,), {'attr': d})
         obj = Owner()
